@@ -356,6 +356,22 @@ def Batch.advance (b : Batch) (e : List Nat) : Batch :=
 
 def finishEvent (sep buf : List Nat) : List Nat := if sep.isSuffixOf buf then buf else buf ++ sep
 
+/-- What the writer closure did for one event: formatted `p` and returned Ok, or wrote `partial` and returned Err. -/
+inductive Formatted where
+  | ok (p : List Nat)
+  | fail (part : List Nat)
+  deriving Repr, DecidableEq, Inhabited
+
+/-- The buffer `emit` sends to the worker: a fresh buffer per event, nothing on the error arm (the event is
+    dropped and counted in `event_format_failed`), whatever the writer had already put into the buffer. -/
+def emitBuf (sep : List Nat) : Formatted → Option (List Nat)
+  | .ok p => some (finishEvent sep p)
+  | .fail _ => none
+
+/-- All buffers sent for a sequence of events, and the number of format failures. -/
+def emitAll (sep : List Nat) (ws : List Formatted) : List (List Nat) × Nat :=
+  (ws.filterMap (emitBuf sep), (ws.filter fun w => match w with | .fail _ => true | .ok _ => false).length)
+
 /-! ## The worker -/
 
 structure Config where
